@@ -21,7 +21,10 @@ var c09Fields = []struct {
 	name string
 	set  func(s *specs.Spec, v string) bool
 }{
-	{"env-value", func(s *specs.Spec, v string) bool { s.Devices[0].ContainerEdits.Env = []string{"A=" + v, "B=2"}; return true }},
+	{"env-value", func(s *specs.Spec, v string) bool {
+		s.Devices[0].ContainerEdits.Env = []string{"A=" + v, "B=2"}
+		return true
+	}},
 	{"spec-env-value", func(s *specs.Spec, v string) bool { s.ContainerEdits.Env = []string{"X=1", "A=" + v}; return true }},
 	{"node-path", func(s *specs.Spec, v string) bool {
 		s.Devices[0].ContainerEdits.DeviceNodes = []*specs.DeviceNode{{Path: v, Type: "c", Major: 1}}
@@ -59,7 +62,10 @@ var c09Fields = []struct {
 		s.Devices[0].ContainerEdits.Mounts = []*specs.Mount{{HostPath: "/h", ContainerPath: "/c", Type: v}}
 		return true
 	}},
-	{"spec-annotation-value", func(s *specs.Spec, v string) bool { s.Annotations = map[string]string{"k": v, "other": "x"}; return true }},
+	{"spec-annotation-value", func(s *specs.Spec, v string) bool {
+		s.Annotations = map[string]string{"k": v, "other": "x"}
+		return true
+	}},
 	{"device-annotation-value", func(s *specs.Spec, v string) bool {
 		s.Devices[0].Annotations = map[string]string{"example.com/k": v}
 		return true
